@@ -92,6 +92,16 @@ pub const F_EVENT_IDX: u64 = 1 << 29;
 pub const F_VERSION_1: u64 = 1 << 32;
 pub const F_ACCESS_PLATFORM: u64 = 1 << 33;
 
+/// the GPU stream on behalf of another property's check (C04: backing addresses given to the device in
+/// request bodies are DMA addresses; C07/C09: backing is not released while attached)
+pub fn gpu_cases(ctx: &Ctx, prop: &str, n: usize) -> Vec<Case> {
+    virtio_drivers::verif_hooks::set_spin_hook(Some(spin_dispatch));
+    let mut all = par_cases(ctx, prop, "gpu", n, |i, id| gpu::one_case(ctx, i, id, false));
+    all.extend(par_cases(ctx, prop, "gpu-malformed", n / 2, |i, id| gpu::one_case(ctx, i, id, true)));
+    virtio_drivers::verif_hooks::set_spin_hook(None);
+    all
+}
+
 /// the sound stream on behalf of another property's check (C07: every call ends; C09: no driver-owned
 /// buffer is released while posted)
 pub fn sound_cases(ctx: &Ctx, prop: &str, n: usize) -> Vec<Case> {
